@@ -47,6 +47,11 @@ EXTRA: list[tuple[str, str]] = [
     ("many-links-sentences", " ".join(f"qa{c} [`qz{c}`](u{c}). " for c in "abcdefghijklm") + "qan\n"),
     ("open-link-dest", "qaa [qab](qac qad qae qaf qag qah qai qaj qak qal qam\n"),
     ("open-bracket-run", "qaa [[[[[[[[[[qab qac qad ((((((((qae qaf <<<<<<<qag {{{{{{qah qai qaj\n"),
+    # empty wrapped segments under an active prefix: a container paragraph that starts with a hard break, two hard breaks in a row
+    ("quote-leading-hardbreak", "> \\\n> qaa\n"),
+    ("quote-double-hardbreak", "> qaa\\\n> \\\n> qab\n"),
+    ("item-double-hardbreak", "- qaa  \n    \\\n  qab\n"),
+    ("item-leading-hardbreak", "1. \\\n   qaa qab\n"),
     ("list-code-blank-quote", "> 1. qaa\n>\n>    ```\n>    a\n>\n>    b\n>    ```\n"),
 ]
 
